@@ -116,8 +116,8 @@ def _shapes(prefix, which, tier_of=lambda i: "quick", timeout=1500, covers=None)
 
 PROPS.update({
     "C01": dict(crate="store", title="The store behaves as a key-value map for every operation sequence",
-                harnesses=_shapes("c01", [1, 2, 3, 4, 5, 6, 7, 8, 9], tier_of=lambda i: "quick" if i in (1, 3, 7, 8, 9) else "thorough", covers={1: ["three rollovers"], 2: ["the merge wrote a hint entry"], 9: ["the merge wrote a hint entry"]}) + CODEC_CONTRACT,
-                bounds={"shapes": SHAPES_NOTE, "outside": "longer histories, more keys, longer keys/values, entries larger than the write buffer, real DashMap/LRU/mmap implementations, real bincode layout"},
+                harnesses=_shapes("c01", [1, 2, 3, 4, 5, 6, 7, 8, 9], tier_of=lambda i: "quick" if i in (1, 3, 4, 7, 8, 9) else "thorough", covers={1: ["three rollovers"], 2: ["the merge wrote a hint entry"], 9: ["the merge wrote a hint entry"]}) + [H("c01_bigentry", timeout=1500, rules=STORE_RULES, covers=["both writes rolled over"]), H("c01_merge3", timeout=1500, rules=STORE_RULES, covers=["the merge wrote a third output file"])] + CODEC_CONTRACT,
+                bounds={"shapes": SHAPES_NOTE, "merge3": "S13 (c01_merge3): three live keys, merge of everything rolling over into three output files, reads after the merge and after a reopen", "bigentry": "S12 (c01_bigentry): a put whose record (8 bytes, 3 SYMBOLIC value bytes) is as long as the scaled write buffer (8), longer than one scaled BufReader fill and larger than max_file_size (0); read back at once, after a later write, and after a reopen", "outside": "longer histories, more keys, longer keys/values, real DashMap/LRU/mmap implementations, real bincode layout, the real 8 KiB buffer size (scaled to 8 bytes)"},
                 assumptions=STORE_ASSUME),
     "C02": dict(crate="store", title="Closing and reopening a store preserves exactly its contents, deletions included",
                 harnesses=[H("c01_shape_1", timeout=1500, rules=STORE_RULES, covers=["three rollovers"]), H("c01_shape_9", timeout=1500, rules=STORE_RULES), H("c01_shape_4", timeout=1500, rules=STORE_RULES),
@@ -126,8 +126,8 @@ PROPS.update({
                 bounds={"shapes": SHAPES_NOTE + "; every shape ends with a reopen through the real rebuild_storage (scan path and hint path) and re-reads both keys", "outside": "two-digit file ids and foreign directory entries (name parsing is executed on single-digit ids only)"},
                 assumptions=STORE_ASSUME),
     "C05": dict(crate="store", title="Compaction never changes what any key reads, now or after a restart",
-                harnesses=_shapes("c01", [2, 3, 4, 5, 6, 9], tier_of=lambda i: "quick" if i in (3, 4, 6, 9) else "thorough", covers={2: ["the merge wrote a hint entry"], 6: ["the tombstone's file was merged"], 9: ["the merge wrote a hint entry"]}),
-                bounds={"shapes": SHAPES_NOTE + "; merges selected by: everything (S2, S4), fragmentation > 0.4 (S3), dead bytes > 0 (S5), followed by reads and by a reopen", "outside": "thresholds are concrete per shape (a symbolic threshold makes the selected set symbolic and the run intractable - measured)"},
+                harnesses=_shapes("c01", [2, 3, 4, 5, 6, 9], tier_of=lambda i: "quick" if i in (3, 4, 6, 9) else "thorough", covers={2: ["the merge wrote a hint entry"], 6: ["the tombstone's file was merged"], 9: ["the merge wrote a hint entry"]}) + [H("c01_merge3", timeout=1500, rules=STORE_RULES, covers=["the merge wrote a third output file"])],
+                bounds={"shapes": SHAPES_NOTE + "; S13 (c01_merge3): THREE live keys in one file, merge of everything with max_file_size 0 (three output files: an entry copied after a rollover), reads after the merge and after a reopen through the hint files; merges selected by: everything (S2, S4), fragmentation > 0.4 (S3), dead bytes > 0 (S5), followed by reads and by a reopen", "outside": "thresholds are concrete per shape (a symbolic threshold makes the selected set symbolic and the run intractable - measured)"},
                 assumptions=STORE_ASSUME),
     "C12": dict(crate="store", title="Hint files are only an accelerator: recovery with or without them agrees",
                 harnesses=[H("c12_direct_4", timeout=1800, rules=STORE_RULES), H("c12_direct_2", timeout=1800, rules=STORE_RULES),
@@ -156,7 +156,7 @@ PROPS.update({
                 bounds={"shapes": "A: two values on disk; open, del a, merge of everything, put b. B: empty directory, rollover on every write; put a, put b, del a. C: two values on disk, merge rolling over into several outputs. D: value in an older file, its tombstone in a newer one, merge of both. One harness instance per CONCRETE kill point k (the directory is snapshotted before file-system call number k); thorough spans every call of the run, quick a subset inside the merge / rollover windows; SYMBOLIC: every value byte. After the run the directory as of the kill is installed and the real rebuild_storage is run on it", "outside": "a second kill during the recovery after the first; longer workloads"},
                 assumptions=STORE_ASSUME + ["process-kill failure model: the page cache survives, the directory is exactly the effect of the prefix of calls"]),
     "C09": dict(crate="store", title="With sync=always an acknowledged write survives power loss, merges included",
-                harnesses=_kills("c09_b", range(2, 14), quick=(5, 7)) + _kills("c09_c", range(6, 31), quick=(12, 16)) + _kills("c09_a", range(10, 33), quick=(18, 22)),
+                harnesses=_kills("c09_b", range(2, 14), quick=(5, 7)) + _kills("c09_c", range(6, 31), quick=(12, 15, 16)) + _kills("c09_a", range(10, 33), quick=(18, 22)),
                 bounds={"shapes": "as C03 with sync=always; additionally SYMBOLIC per file: the surviving length, anywhere between the length at its last completed fsync and its written length; creations and removals issued persist", "outside": "directory-entry durability (the property's failure model makes creations/removals persistent)"},
                 assumptions=STORE_ASSUME),
     "C20": dict(crate="store", title="A failed disk operation is reported and leaves the store consistent",
